@@ -100,6 +100,15 @@ func c07Gen(r *Rng, tier string, i int) Sx {
 	if r.Chance(1, 5) {
 		opts = append(opts, L(A("strict")))
 	}
+	// very long paths that share a long prefix (cache keys must be the whole method+path)
+	if r.Chance(1, 8) {
+		long := "/assets/" + strings.Repeat("deep/", 26)
+		t.defs = append(t.defs, L(SL([]string{"GET"}), S("/assets/{file:.+}"), B(false)))
+		t.pats = append(t.pats, nil, nil)
+		t.paths = append(t.paths, long+"a.css", long+"b.css")
+		t.meths = append(t.meths, []string{"GET"}, []string{"GET"})
+		t.defs = append(t.defs, L(SL([]string{"GET"}), S("/zz9/{never}"), B(false)))
+	}
 	// "/*" fallback routes for some methods only: their answers must not leak to other methods through the cache
 	if r.Chance(1, 4) {
 		ms := []string{r.Pick([]string{"GET", "POST", "PUT"})}
@@ -182,10 +191,12 @@ var c13BadPatterns = []string{
 	"/{a:(}", "/{a:x)}", "/{a:*}", "/a[[b]]", "/a[b]]", "/{a:\\d+}[/{b:(x)}]", "/p/{a}/(v1|v2)", "/{n}/(a|b)", "/a(?:b", "/(",
 	"/{a:[z-a]}", "/{a:x{3,1}}", "/{a:\\}", "/{ a : \\d+ }", "/{a:b}{c}", "/{a}-{b}", "/[x]", "[/x]", "/a.{ext:(?:js|css)}",
 	"/{a:.+\\.(?:css|js)}", "/a[.html]", "/{all}", "/files/{f:.*}", "/{a:x|y}", "/{a:[^/]+}", "/{id:[0-9]{1,3}}", "/*", "/a*", "/a+b",
+	"/" + strings.Repeat("seg", 24) + "/{id}", "/" + strings.Repeat("x", 130) + "/{a}/{b}", "/" + strings.Repeat("ab", 40),
 }
 var c13BadMethods = []string{"DEL", "P", "OPT", "", " ", "get", " post ", "GET,POST", "FOO", "PATCH", "GETX", "TRACE", "po\u017ft", "option\u017f", "G\u00cbT", "\u017f", "connect\u0131"}
 var c13HostilePaths = []string{"", " ", "  ", "\t", "/", "//", "///", "/ /", " /", "/ ", "\t/\n", " // ", "/\xff", "\xfe\xff", "/a\x00b", "/%zz", strings.Repeat("/a", 40), "/u/ab", "/u/12",
-	"/p/x/v1", "/x/a", "/a.js", "/a.html", "/a", "/ab", "/x", "/x/y", "/x/y/z", " /u/1 ", "/u/1/", "/files/a/b", "/é/ü", "/a b", "/{a}", "/[x]"}
+	"/p/x/v1", "/x/a", "/a.js", "/a.html", "/a", "/ab", "/x", "/x/y", "/x/y/z", " /u/1 ", "/u/1/", "/files/a/b", "/é/ü", "/a b", "/{a}", "/[x]",
+	"/" + strings.Repeat("seg", 24) + "/7", "/" + strings.Repeat("seg", 23) + "/7", "/" + strings.Repeat("x", 130) + "/1/2", "/" + strings.Repeat("x", 129) + "/1/2", "/" + strings.Repeat("y", 300) + "/z"}
 var c13HostileMethods = []string{"GET", "get", "", " ", "HEAD", "OPTIONS", "G/ET", "GET/", "\xff", "PUT"}
 
 // handler-count cases (executor rp.go): group + variadic + later middleware around the limit of 63 and around
